@@ -97,17 +97,65 @@ fn report_signature(stderr: &str) -> String {
 /// Wait for all children while reading their pipes concurrently (a child that fills its stdout pipe would otherwise
 /// sit blocked until its turn comes, serialising the stage)
 fn drain(children: Vec<(u64, std::io::Result<std::process::Child>)>) -> Vec<(u64, std::io::Result<std::process::Output>)> {
+	// A child that makes no progress (a process wedged inside a sanitizer runtime after the code under test corrupted
+	// its own state, say) is killed after a generous wall-clock limit; its output then lacks a SUMMARY line and its exit
+	// status is a signal, which the stages count as inconclusive unless a sanitizer report is present.
+	let limit = std::time::Duration::from_secs(if std::env::var("VERIF_C10_CHILD_LIMIT_S").is_ok() { std::env::var("VERIF_C10_CHILD_LIMIT_S").ok().and_then(|v| v.parse().ok()).unwrap_or(1500) } else { 1500 });
+	let start = std::time::Instant::now();
+	let pids: std::sync::Arc<std::sync::Mutex<Vec<(u32, bool)>>> = Default::default();
 	let handles: Vec<_> = children
 		.into_iter()
-		.map(|(p, ch)| (p, std::thread::spawn(move || ch.and_then(|c| c.wait_with_output()))))
+		.map(|(p, ch)| {
+			let pids2 = pids.clone();
+			let slot = ch.as_ref().ok().map(|c| c.id());
+			let idx = {
+				let mut g = pids.lock().unwrap();
+				g.push((slot.unwrap_or(0), false));
+				g.len() - 1
+			};
+			(
+				p,
+				std::thread::spawn(move || {
+					let r = ch.and_then(|c| c.wait_with_output());
+					pids2.lock().unwrap()[idx].1 = true;
+					r
+				}),
+			)
+		})
 		.collect();
-	handles
+	// watchdog
+	let pids3 = pids.clone();
+	let watchdog = std::thread::spawn(move || loop {
+		std::thread::sleep(std::time::Duration::from_secs(2));
+		let g = pids3.lock().unwrap();
+		if g.iter().all(|x| x.1) {
+			return;
+		}
+		if start.elapsed() > limit {
+			for (pid, done) in g.iter() {
+				if !*done && *pid != 0 {
+					eprintln!("child {pid} still running after {:.0}s: killed (inconclusive)", start.elapsed().as_secs_f64());
+					unsafe {
+						libc::kill(*pid as i32, libc::SIGKILL);
+					}
+				}
+			}
+			return;
+		}
+	});
+	let out = handles
 		.into_iter()
 		.map(|(p, h)| (p, h.join().unwrap_or_else(|_| Err(std::io::Error::new(std::io::ErrorKind::Other, "collector thread died")))))
-		.collect()
+		.collect();
+	let _ = watchdog.join();
+	out
 }
 
 pub fn run(thorough: bool, seed: u64) -> i32 {
+	if std::env::var("VERIF_C10_CHILD_LIMIT_S").is_err() {
+		// the longest stage of a clean run takes ~3 min (quick) / ~30 min (thorough)
+		std::env::set_var("VERIF_C10_CHILD_LIMIT_S", if thorough { "3600" } else { "600" });
+	}
 	let t0 = Instant::now();
 	let dir = format!("{VERIF}/c10trace");
 	let _ = std::fs::copy(format!("{VERIF}/engine/Cargo.lock"), format!("{dir}/Cargo.lock"));
